@@ -44,6 +44,7 @@ SHAPES = [(8, 8), (7, 9), (6, 10), (10, 6), (9, 7)]
 ANGLES = [float(a) for a in range(0, 360, 15)]
 TOL_GEOM = 1e-9  # float64 geometry; observed <= 6e-15; 1-knot defect was 2 px
 TOL_WEIGHT = 1e-4  # float32 accumulation in bilinear_kde; observed <= 3e-7 relative
+TOL_IMAGE = 1e-5  # resampled canvas, same request in another spelling: observed 0 (identical float32 arithmetic); a misplaced pixel changes it by O(1)
 TOL_KNOT = 1e-5  # observed <= 2e-9 px; the reverted registration fix moves knots by 0.2-0.5 px
 
 
@@ -188,6 +189,16 @@ def w_spellings(item, seed=0):
     }
     if all(float(a).is_integer() for a in angles):
         variants["angles as ints"] = lambda: DC.from_data([i.copy() for i in ims], [int(a) for a in angles]).preprocess(**pp)
+        # integer-valued angles in every integer / small float array dtype that holds them exactly
+        for dt in ("int8", "uint8", "int16", "uint16", "int32", "uint32", "int64", "uint64", "float16"):
+            if all(0 <= a <= np.iinfo(dt).max if dt.startswith(("int", "uint")) else a <= 2048 for a in angles):
+                variants[f"angles as {dt} array"] = (lambda dt=dt: DC.from_data([i.copy() for i in ims], np.array([int(a) for a in angles], dtype=dt)).preprocess(**pp))
+    # memory layouts of the image data (values identical to the canonical stack)
+    variants["transposed views (img.T of a (W,H) array)"] = lambda: DC.from_data([np.ascontiguousarray(i.T).T for i in ims], list(angles)).preprocess(**pp)
+    variants["Fortran-ordered 3-D stack"] = lambda: DC.from_data(np.asfortranarray(np.stack(ims)), list(angles)).preprocess(**pp)
+    variants["(W,H,N) stack transposed to (N,H,W)"] = lambda: DC.from_data(np.ascontiguousarray(np.stack(ims).transpose(2, 1, 0)).transpose(2, 1, 0), list(angles)).preprocess(**pp)
+    variants["every-other-column slice of a wider array"] = lambda: DC.from_data([np.repeat(i, 2, axis=1)[:, ::2] for i in ims], list(angles)).preprocess(**pp)
+    same_values = {"Fortran-ordered images", "read-only images", "3-D array", "list of Dataset2d", "Dataset3d", "angles as ndarray", "angles as tuple", "angles + 360", "angles - 360", "number_knots=np.int64", "pad_fraction=np.float64, kde_sigma=np.float32", "positional arguments", "angles as ints"}
     base = None
     for name, fn in variants.items():
         case = {"part": "spelling", "shape": list(shape), "angle": ang, "knots": knots, "pad": pad, "variant": name}
@@ -200,7 +211,7 @@ def w_spellings(item, seed=0):
             g = []
             for i in range(2):
                 xa, ya = dc.interpolator[i].transform_coordinates(dc.knots[i])
-                g.append((np.asarray(xa, float), np.asarray(ya, float), float(np.asarray(dc.weights_warped.array[i], dtype=np.float64).sum())))
+                g.append((np.asarray(xa, float), np.asarray(ya, float), float(np.asarray(dc.weights_warped.array[i], dtype=np.float64).sum()), np.array(dc.images_warped.array[i], dtype=np.float64), np.array(dc.weights_warped.array[i], dtype=np.float64)))
         except Exception as ex:
             t.fail({"relation": "legal_spelling_accepted", "variant": name}, case, f"{name}: raised {type(ex).__name__}: {str(ex)[:150]} (the unchanged tree accepts this spelling)")
             continue
@@ -212,6 +223,18 @@ def w_spellings(item, seed=0):
         ew = max(abs(a[2] - b[2]) / (shape[0] * shape[1]) for a, b in zip(g, base[1]))
         if canvas != base[0] or e > tol or ew > TOL_WEIGHT:
             t.fail({"relation": "legal_spelling_gives_canonical_result", "variant": name}, case, f"{name}: shape={shape} angle={ang} knots={knots} pad={pad}: canvas {canvas} vs {base[0]}, coordinates differ by {e:.3g} px, weight sums by {ew:.3g} from the canonical spelling")
+            continue
+        # the resampled images themselves (where each pixel's VALUE lands): spellings that carry the same pixel values
+        # and the same request must give the canonical canvas (float32 accumulation: observed 0 on the unchanged tree)
+        if name in same_values or "layout" in name or "stack" in name or "views" in name or "slice" in name or name.startswith("angles as "):
+            if "float32 array" in name:
+                continue
+            scale = max(float(np.abs(base[1][0][3]).max()), 1e-12)
+            ei = max(float(np.abs(a[3] - b[3]).max()) / scale for a, b in zip(g, base[1]))
+            em = max(float(np.abs(a[4] - b[4]).max()) for a, b in zip(g, base[1]))
+            t.stat("spelling_image_rel_diff", ei)
+            if ei > TOL_IMAGE or em > TOL_IMAGE:
+                t.fail({"relation": "legal_spelling_gives_canonical_image", "variant": name}, case, f"{name}: shape={shape} angle={ang} knots={knots} pad={pad}: resampled images differ by {ei:.3g} (relative), weight maps by {em:.3g} from the canonical spelling")
     return t
 
 
